@@ -31,17 +31,13 @@ theorem slice_branch_spec (lhs rhs : Node) (s : Stmt) (h : ctx.sliceToSlice lhs 
       exact Or.inl ⟨ha, hb, _, rfl⟩
     · simp only [re] at hb
       simp only [hb, Bool.false_eq_true, ↓reduceIte] at h
-      split at h
-      · cases h; exact Or.inr (Or.inl ⟨ha, by simpa using hb, _, rfl⟩)
-      · cases h
+      cases h; exact Or.inr (Or.inl ⟨ha, by simpa using hb, _, rfl⟩)
   · simp only [le, re] at ha
     simp only [ha, Bool.false_eq_true, ↓reduceIte] at h
     split at h
     · rename_i ht
       simp only [Bool.and_eq_true] at ht
-      split at h
-      · cases h; exact Or.inr (Or.inr ⟨by simpa using ha, ht.1, ht.2, _, _, rfl⟩)
-      · cases h
+      cases h; exact Or.inr (Or.inr ⟨by simpa using ha, ht.1, ht.2, _, _, rfl⟩)
     · cases h
 
 /-- no converting loop without the opt-in -/
